@@ -4,6 +4,7 @@ import json
 import sys
 
 pid = sys.argv[1]
+first = int(sys.argv[2]) if len(sys.argv) > 2 else 1   # number of the first change (second round: 4)
 wt = f'/tmp/wt_{pid}'
 prop = next(json.loads(l) for l in open('/verif/properties.jsonl') if json.loads(l)['id'] == pid)
 print(f"""You are helping to evaluate a verification effort by playing the adversary. You work ONLY inside the scratch git worktree
@@ -31,7 +32,7 @@ the existing test suite as described above. Prefer changes that need something s
 unusual but valid input, a particular branch/configuration, a multi-step sequence, two cooperating sites that each look fine alone — over
 changes that every ordinary run would expose at once. Vary the mechanisms and the code sites across the three.
 
-For each change k = 1, 2, 3:
+For each change k = {first}, {first + 1}, {first + 2}:
   1. make the edit in {wt}, run the test suite, confirm the 149 still pass;
   2. write /tmp/seeds/{pid}_k/patch.diff  (output of `git -C {wt} diff`), 
      /tmp/seeds/{pid}_k/demo.py — a small self-contained program that exits 0 when the property holds and exits 1 (printing what it saw)
@@ -40,5 +41,9 @@ For each change k = 1, 2, 3:
      /tmp/seeds/{pid}_k/notes.md — which clause of the property it breaks, what is needed for it to manifest (inputs/config/sequence), and
        what you ran to confirm (test result line, demo exit codes with and without the change);
   3. restore the worktree (git -C {wt} checkout -- .) before starting the next change.
+Never use `git stash` (the stash is shared between worktrees; other people work in sibling worktrees): save with `git diff > file`, restore with
+`git checkout -- .`, re-apply with `git apply`. Earlier rounds already produced obvious changes (a wrong constant, a dropped term, a swapped
+argument that every ordinary run exposes); this round should aim for changes whose effect is confined to an unusual but valid corner:
+a particular combination of options, a boundary value, a rarely used branch, an interaction between two modules, state carried between runs.
 Finish with the worktree restored to its clean state and reply with a short summary of the three changes (one paragraph each)."""
 )
